@@ -10,7 +10,11 @@ FROMS = [
     ('join', 'FROM t JOIN u ON t.a = u.a', ['t.a', 't.b', 't.s', 'u.c', 'u.d'], 'inner-join'),
     ('left', 'FROM t LEFT JOIN u ON t.a = u.a', ['t.a', 't.b', 't.s', 'u.c', 'u.d'], 'left-join'),
     ('comma', 'FROM t, u WHERE t.a = u.a', ['t.a', 't.b', 't.s', 'u.c', 'u.d'], 'comma-join'),
+    # the WHERE predicates below are over t: the NULL-supplying side of a RIGHT join, one of the two of a FULL join
+    ('right', 'FROM t RIGHT JOIN u ON t.a = u.a', ['t.a', 't.b', 't.s', 'u.c', 'u.d'], 'right-join'),
+    ('full', 'FROM t FULL JOIN u ON t.a = u.a', ['t.a', 't.b', 't.s', 'u.c', 'u.d'], 'full-join'),
 ]
+UPREDS = ['u.c IS NULL', 'u.c > 1', 'u.a IS NOT NULL AND t.b IS NULL']
 PREDS = ['t.a = 1', 't.a <> t.b', 't.b IS NULL', 't.a IN (1, 2)', 't.a BETWEEN 1 AND t.b', "t.s LIKE 'a%'", 't.a = 1 OR t.b = 2', 'NOT (t.a = 1 AND t.b = 2)',
          't.a IS NOT NULL AND t.b > 1', "t.s IN ('a', 'B')", 't.a + t.b > 2', "COALESCE(t.s, 'z') <> 'a'"]
 PROJS = [('cols', 't.a, t.b, t.s'), ('arith', 't.a, t.a + t.b AS ab, t.b * 2 AS b2, t.a - 1 AS am'), ('case', "t.a, CASE WHEN t.a = 1 THEN 'one' WHEN t.b = 2 THEN 'two' ELSE t.s END AS c"),
@@ -49,7 +53,7 @@ def statements(level):
     """level 1: at most one optional clause beyond FROM/WHERE; level 2: two; level 3: adds three-clause combinations."""
     S = []
     for fname, frm, cols, ftag in FROMS:
-        preds = [None] + PREDS if fname == 't' else [None] + PREDS[:5]
+        preds = [None] + PREDS if fname == 't' else [None] + PREDS[:5] + UPREDS
         for pred in preds:
             base = where_join(frm, pred)
             ptag = ftag + ('+where' if pred else '')
